@@ -75,6 +75,7 @@ def generate(rng, tier):
     byname = {p["name"]: p for p in allp}
     # cargo ignores a dependency without a lib target, so every dependency gets one
     for p in allp:
+        p["depkind"] = {dn: rng.choice(["dependencies", "dependencies", "dev-dependencies", "build-dependencies"]) for dn in p["deps"]}
         for dn in p["deps"]:
             if not any(t["kind"] == "lib" for t in byname[dn]["targets"]):
                 byname[dn]["targets"].append({"kind": "lib", "edition": None})
@@ -121,11 +122,13 @@ def generate(rng, tier):
                 files[os.path.join(p["dir"], "benches/bn.rs")] = SRC
                 if te:
                     lines += ["", "[[bench]]", 'name = "bn"'] + ed
-        if p["deps"]:
-            lines += ["", "[dependencies]"]
-            for dn in p["deps"]:
-                rel = os.path.relpath(byname[dn]["dir"], p["dir"])
-                lines.append('%s = { path = "%s" }' % (dn, rel))
+        for sect in ("dependencies", "dev-dependencies", "build-dependencies"):
+            ds = [dn for dn in p["deps"] if p.get("depkind", {}).get(dn, "dependencies") == sect]
+            if ds:
+                lines += ["", "[%s]" % sect]
+                for dn in ds:
+                    rel = os.path.relpath(byname[dn]["dir"], p["dir"])
+                    lines.append('%s = { path = "%s" }' % (dn, rel))
         files[os.path.join(p["dir"], "Cargo.toml")] = "\n".join(lines) + "\n" + workspace_hdr
 
     members = [p for p in pk if p["dir"] != "ws"]
@@ -182,7 +185,7 @@ def generate(rng, tier):
         "virtual": virtual, "single": single, "sel_kind": sel_kind, "sel": sel, "cwd": cwd, "subdir": subdir,
         "manifest": manifest, "check": check, "msgfmt": msgfmt, "after": after, "fault": fault,
         "fault_arg": rng.below(1000), "hashseed": rng.below(1 << 32),
-        "dirs": {p["name"]: p["dir"] for p in allp}, "e2e": rng.chance(8) and not msgfmt and not check and after in ([], ["--config", "max_width=80"]),
+        "dirs": {p["name"]: p["dir"] for p in allp}, "deps": {p["name"]: list(p["deps"]) for p in allp}, "e2e": rng.chance(8) and not msgfmt and not check and after in ([], ["--config", "max_width=80"]),
     }
 
 
@@ -194,13 +197,13 @@ def cargo_env(sc):
             "CARGO_NET_OFFLINE": "true"}
 
 
-def reference_metadata(sc, cwd, manifest):
+def reference_metadata(sc, cwd, manifest, nodeps=False):
     """independent ground truth: full `cargo metadata` (with path dependencies)"""
     ti = core.toolinfo()
     env = dict(cargo_env(sc))
     env["HOME"] = os.path.join(sc.root, "home")
     env["LD_LIBRARY_PATH"] = ti["sysroot_lib"]
-    args = [ti["cargo"], "metadata", "--format-version", "1", "--offline"]
+    args = [ti["cargo"], "metadata", "--format-version", "1", "--offline"] + (["--no-deps"] if nodeps else [])
     if manifest:
         args += ["--manifest-path", os.path.join(sc.root, manifest)]
     r = subprocess.run(args, cwd=os.path.join(sc.root, cwd), env=env, capture_output=True, text=True)
@@ -242,7 +245,28 @@ def execute(case):
                 return out
 
             if case["sel_kind"] == "all":
-                local = [p for p in md["packages"] if p["source"] is None]
+                # every workspace member and every local path dependency, transitively: the closure comes from the
+                # abstract model (all dependency kinds; cargo's own resolve drops the dev-dependencies of
+                # non-members), the targets and editions of each package from cargo
+                names = {p["name"] for p in mem_pk}
+                deps = case.get("deps", {})
+                todo = list(names)
+                while todo:
+                    n = todo.pop()
+                    for d in deps.get(n, []):
+                        if d not in names:
+                            names.add(d)
+                            todo.append(d)
+                local = []
+                for n in sorted(names):
+                    if n in pk and pk[n]["source"] is None:
+                        local.append(pk[n])
+                    else:
+                        md1, _ = reference_metadata(sc, ".", os.path.join(case["dirs"][n], "Cargo.toml"), nodeps=True)
+                        if md1 is None:
+                            raise core.HarnessError("cargo metadata failed for " + n)
+                        want = os.path.realpath(os.path.join(sc.root, case["dirs"][n], "Cargo.toml"))
+                        local += [p for p in md1["packages"] if os.path.realpath(p["manifest_path"]) == want]
                 expected = [tmap(local)]
             elif case["sel_kind"] == "p":
                 chosen = [p for p in mem_pk if p["name"] in case["sel"]]
